@@ -221,8 +221,8 @@ def run():
     # one -- single names (names with a character outside [a-z0-9_] on all 12 dialects, the others on 3), keywords, paths (below),
     # and the programs of the end-to-end stream (section 3: the formatted SQL is executed too).
     def fmt_dialects(n):
-        plain = all(("a" <= ch <= "z") or ("0" <= ch <= "9") or ch == "_" for ch in n)
-        return ["sqlite", "postgres", "mysql"] if plain and not ck.thorough else DIALECTS
+        risky = any(ch in n for ch in "\\\"'`$.;-/* \t")       # the characters SQL formatters have opinions about
+        return DIALECTS if risky or ck.thorough else ["sqlite", "postgres", "mysql"]
     fcases = [(n, d) for n in names for d in fmt_dialects(n)]
     freqs = [{"src": "from t | select {this.%s, y = 1}" % bt(n), "target": "sql." + d, "format": f} for n, d in fcases for f in (False, True)]
     fans = harness("compile", freqs)
@@ -598,12 +598,13 @@ def run():
         elif len(ck.coverage["samples"]) < 10 and i % 397 == 0:
             ck.sample({"prql": t["src"], "sql": a["ok"], "rows": got[:2]})
     # ------------------------------------------------------------ 3b. the same programs with formatting on (the default)
-    # every program whose names are not plain [a-z0-9_], every directed generated-name program and every 4th of the rest:
+    # every program with a name containing a character SQL formatters have opinions about, every directed generated-name program
+    # and every 6th (quick) / every one (thorough) of the rest:
     # the formatted SQL must run and return what the unformatted SQL returns (columns and rows)
     def plain_name(n):
         return all(("a" <= ch <= "z") or ("0" <= ch <= "9") or ch == "_" for ch in n)
     fidx = [i for i, t_ in enumerate(tests) if "ok" in comp[i] and "rows" in ex_ans.get(i, {}) and
-            (t_["position"] == "generated-like" or not all(plain_name(n) for n in t_["names"]) or i % 4 == 0)]
+            (t_["position"] == "generated-like" or any(ch in n for n in t_["names"] for ch in "\\\"'$.;-/*") or i % ck.n(6, 1) == 0)]
     fcomp = harness("compile", [{"src": tests[i]["src"], "target": "sql.sqlite", "format": True} for i in fidx])
     fex_i = [k for k, a in enumerate(fcomp) if "ok" in a]
     fex = dict(zip(fex_i, harness("exec", [{"setup": tests[fidx[k]]["setup"], "sql": fcomp[k]["ok"]} for k in fex_i])))
